@@ -652,6 +652,31 @@ fn count_files(d: &std::path::Path) -> usize {
     n
 }
 
+
+/// A failure is reported only when it reproduces: the case is deterministic up to the
+/// kernel/scheduler, so a failure that two further executions do not show again is
+/// infrastructure trouble (reported as such, with its details), never a verdict.
+fn stable(section: &'static str, run: impl Fn() -> Verdict) -> Verdict {
+    let once = || match vh_engine::util::catch_panic(&run) {
+        Ok(v) => v,
+        Err(p) => Verdict::fail(format!("C13:{section}:panic:{}:{}", p.file, p.norm_msg()), format!("panic at {}:{}: {}", p.file, p.line, p.msg)),
+    };
+    let first = once();
+    let Some(f) = first.fail.clone() else { return first };
+    for _ in 0..2 {
+        let again = once();
+        if again.fail.as_ref().is_some_and(|g| g.key == f.key) {
+            return again;
+        }
+    }
+    infra(format!("section {section}: a failure did not reproduce in two further executions: key={} msg={}", f.key, short_n(&f.msg, 1500)));
+    Verdict::pass()
+}
+
+fn short_n(s: &str, n: usize) -> String {
+    if s.len() > n { format!("{}…", &s[..s.char_indices().take(n).last().map(|x| x.0).unwrap_or(0)]) } else { s.to_string() }
+}
+
 fn runtime() -> tokio::runtime::Runtime {
     tokio::runtime::Builder::new_current_thread().enable_all().build().expect("tokio runtime")
 }
@@ -964,7 +989,7 @@ fn main() {
 
     let known = ck.known().clone();
     let k1 = known.clone();
-    ck.run(Section::pbt("scenarios", tier.pick(2_000, 60_000), case_st, move |c: &Case| check_scenario(c, &k1)).shards(12).shrink_iters(400));
+    ck.run(Section::pbt("scenarios", tier.pick(2_000, 60_000), case_st, move |c: &Case| stable("scenarios", || check_scenario(c, &k1))).shards(12).shrink_iters(400));
     drain_infra(&mut ck);
 
     ck.run(
@@ -975,18 +1000,18 @@ fn main() {
                 tier.pick("", " (thorough: plus every pair of split points for the two raw formats and every pair at distance <= 3 for the MIME formats)")
             ),
             move || Box::new(sweep(seed, tier == vh_engine::Tier::Thorough).into_iter()),
-            check_split,
+            |c: &SplitCase| stable("tcp-split-sweep", || check_split(c)),
         )
         .shards(12),
     );
     drain_infra(&mut ck);
 
-    ck.run(Section::pbt("tcp-split-random", tier.pick(600, 40_000), split_random_st, check_split).shards(12).shrink_iters(300));
+    ck.run(Section::pbt("tcp-split-random", tier.pick(600, 40_000), split_random_st, |c: &SplitCase| stable("tcp-split-random", || check_split(c))).shards(12).shrink_iters(300));
     drain_infra(&mut ck);
 
     if tier == vh_engine::Tier::Thorough || ck.is_replay() {
         let k2 = known.clone();
-        ck.run(Section::pbt("stall", 48, stall_case_st, move |c: &Case| check_scenario(c, &k2)).shards(16).shrink_iters(0));
+        ck.run(Section::pbt("stall", 48, stall_case_st, move |c: &Case| stable("stall", || check_scenario(c, &k2))).shards(16).shrink_iters(0));
         drain_infra(&mut ck);
     }
     // no mock task, socket or thread may outlive its case: what is left at the end is the
